@@ -15,7 +15,7 @@ import (
 func init() {
 	Register(&Property{
 		ID: "C06",
-		Explanation: "Decides that every statement that can touch relationships is scoped by the network id of the request: (R06.1) every pop query chain executed on keto_relation_tuples is rooted at queryWithNetwork(ctx), which is Where(\"nid = ?\", NetworkID(ctx)) on its own ctx; (R06.2) every raw statement on keto_relation_tuples has, as a top-level AND-conjunct of its WHERE tree (never under an OR), nid = ? bound to NetworkID(ctx) of the context in scope, and every sub-select on the table correlates nid with the outer row; statements are obtained by symbolically evaluating the builders (Sprintf/Join/Builder/per-case fragments) and parsed, not matched as text; (R06.3) the INSERT's nid column receives the nid parameter and the call site passes NetworkID(ctx); (R06.4) the UUIDv5 namespace of every name is NetworkID(ctx) and statements on keto_uuid_mappings are keyed by such ids only; (R06.5) no keto package other than persistence/sql (and its migrations / test database helpers) executes statements; (R06.7) the objects that serve the requests of every network (engines, handlers, mappers, persister, traverser) have no caching or coalescing field and no container field written after construction; (R06.6) NetworkID(ctx) asks the contextualizer on every call and keeps no state. " +
+		Explanation: "Decides that every statement that can touch relationships is scoped by the network id of the request: (R06.1) every pop query chain executed on keto_relation_tuples is rooted at queryWithNetwork(ctx), which is Where(\"nid = ?\", NetworkID(ctx)) on its own ctx; (R06.2) every raw statement on keto_relation_tuples has, as a top-level AND-conjunct of its WHERE tree (never under an OR), nid = ? bound to NetworkID(ctx) of the context in scope, and every sub-select on the table correlates nid with the outer row; statements are obtained by symbolically evaluating the builders (Sprintf/Join/Builder/per-case fragments) and parsed, not matched as text; (R06.3) the INSERT's nid column receives the nid parameter and the call site passes NetworkID(ctx); (R06.4) the UUIDv5 namespace of every name is NetworkID(ctx) and statements on keto_uuid_mappings are keyed by such ids only; (R06.5) no keto package other than persistence/sql (and its migrations / test database helpers) executes statements; (R06.8) every http.Handler returned by the router builders is the negroni middleware stack (possibly wrapped), never a wrapper around the bare router; (R06.7) the objects that serve the requests of every network (engines, handlers, mappers, persister, traverser) have no caching or coalescing field and no container field written after construction; (R06.6) NetworkID(ctx) asks the contextualizer on every call and keeps no state. " +
 			"Not decided: the contextualizer implementations, the database, the one-shot UUID migration (copies every network's rows keeping nid; not reachable from an API entry point).",
 		Assumptions: []string{
 			"pop emits the Where fragments it is given, ANDed together",
@@ -304,6 +304,7 @@ func runC06(c *Ctx) {
 		r.Discharge("R06.5", "", "who may execute statements", "", "every statement-executing call outside the migrations and test database helpers is in persistence/sql")
 	}
 	singletonState(c, "R06.7")
+	middlewareChainKept(c, "R06.8")
 }
 
 func exprStr(e ast.Expr) string {
@@ -698,5 +699,120 @@ func singletonState(c *Ctx, rule string) {
 	}
 	if n < 6 {
 		r.Undecide(rule, "", "request-serving singletons", "", fmt.Sprintf("%d of the engine/handler/mapper/persister types found (floor 6)", n))
+	}
+	// package-level variables of the packages that serve requests: no pools, caches or maps
+	// (a package variable is one more singleton)
+	var badVars []string
+	nVars := 0
+	for _, rel := range []string{"internal/check", "internal/check/checkgroup", "internal/expand", "internal/x/graph", "internal/relationtuple", "internal/persistence/sql", "internal/schema", "ketoapi"} {
+		pk := p.SSAPkg[core.KetoMod+"/"+rel]
+		if pk == nil {
+			continue
+		}
+		for _, mem := range pk.Members {
+			g, ok := mem.(*ssa.Global)
+			if !ok {
+				continue
+			}
+			nVars++
+			t := g.Type().(*types.Pointer).Elem()
+			if nn, ok := t.(*types.Named); ok && nn.Obj().Pkg() != nil {
+				pth := nn.Obj().Pkg().Path()
+				if (pth == "sync" && (nn.Obj().Name() == "Map" || nn.Obj().Name() == "Pool")) || statefulPkg(pth) {
+					badVars = append(badVars, fmt.Sprintf("%s.%s is a %s.%s", rel, g.Name(), pth, nn.Obj().Name()))
+				}
+			}
+		}
+	}
+	r.Check(len(badVars) == 0, rule, "request-serving packages", "package-level state", "",
+		fmt.Sprintf("none of the %d package variables of the request-serving packages is a pool, cache or sync.Map", nVars),
+		strings.Join(badVars, "; ")+": objects taken from it are shared between requests (a straggling goroutine of one request still uses what the next request was handed)")
+}
+
+// ---- R06.8 the middleware chain is not bypassed --------------------------------------------------------
+
+// middlewareChainKept: the HTTP routers are served through a negroni stack; the
+// middlewares of that stack are where an embedding application puts the
+// request's tenant into the context. Every handler returned by a function that
+// builds such a stack is that stack, possibly wrapped: a wrapper (CORS) built
+// around the bare router serves requests that never pass the tenant
+// middleware, so they run in the default network.
+func middlewareChainKept(c *Ctx, rule string) {
+	p, r := c.P, c.R
+	n := 0
+	for _, fn := range p.KetoFuncs("internal/driver") {
+		if fn.Parent() != nil {
+			continue
+		}
+		res := fn.Signature.Results()
+		if res.Len() != 1 || !core.IsNamed(res.At(0).Type(), "net/http", "Handler") {
+			continue
+		}
+		var stack ssa.Value
+		core.Instrs(fn, func(_ *ssa.BasicBlock, _ int, ins ssa.Instruction) {
+			if call, ok := ins.(*ssa.Call); ok {
+				if obj := core.CalleeObj(&call.Call); obj != nil && obj.Name() == "New" && obj.Pkg() != nil && strings.HasSuffix(obj.Pkg().Path(), "negroni") {
+					stack = call
+				}
+			}
+		})
+		if stack == nil {
+			continue
+		}
+		n++
+		var derives func(v ssa.Value, d int) bool
+		derives = func(v ssa.Value, d int) bool {
+			if v == nil || d > 8 {
+				return false
+			}
+			if v == stack {
+				return true
+			}
+			switch x := v.(type) {
+			case *ssa.MakeInterface:
+				return derives(x.X, d+1)
+			case *ssa.ChangeInterface:
+				return derives(x.X, d+1)
+			case *ssa.Phi:
+				for _, e := range x.Edges {
+					if !derives(e, d+1) {
+						return false
+					}
+				}
+				return len(x.Edges) > 0
+			case *ssa.Call:
+				for _, a := range x.Call.Args {
+					if derives(a, d+1) {
+						return true
+					}
+				}
+			case *ssa.UnOp:
+				if al, ok := x.X.(*ssa.Alloc); ok {
+					ok2 := false
+					for _, st := range core.CellStores(al) {
+						if !derives(st.Val, d+1) {
+							return false
+						}
+						ok2 = true
+					}
+					return ok2
+				}
+			}
+			return false
+		}
+		okAll := true
+		for _, b := range fn.Blocks {
+			if ret, ok := b.Instrs[len(b.Instrs)-1].(*ssa.Return); ok && len(ret.Results) == 1 {
+				if !derives(ret.Results[0], 0) {
+					okAll = false
+				}
+			}
+		}
+		r.Check(okAll, rule, core.FuncName(fn), "returned handler is the middleware stack", p.Pos(fn.Pos()),
+			"every handler the function returns is the negroni stack, possibly wrapped",
+			"a handler returned by this function is not derived from the negroni stack it built (a wrapper around the bare router): requests served through it skip the middlewares, among them the one that selects the request's network")
+	}
+	if n < 2 {
+		r.Undecide(rule, "", "router builders", "", fmt.Sprintf("%d functions that build a negroni stack and return an http.Handler found (floor 2)", n))
 	}
 }
